@@ -319,25 +319,42 @@ Theorem unit_read_by_reader : forall (dbg dbg' : bool) (cx : wcx) (root : die) (
 Proof. exact unit_read_by_reader_lemma. Qed.
 
 (* the example tree meets the hypotheses of (c); what the raw reader reports for it *)
+Definition ex_cx : wcx := mkWcx ex_enc false 0 0 (cs_entries ex_st) (cs_codes ex_st) None [] [] [] [] 4.
+Definition ex_f : eid -> list byte :=
+  fun id => match ref_value true false 0 0 (cs_entries ex_st) 4 id with Some b => b | None => zeros 4 end.
+
+Example unit_read_by_reader_ex_hyps :
+  die_rd_ok ex_cx ex_root /\ AttrProofs.addr_size_ok (renc ex_cx) /\
+  FO.header_len (FO.mkUH 4 false 8 FO.UCompile 0) = 11 /\ (forall id, UnitWr.blen (ex_f id) = 4).
+Proof.
+  assert (A : forall n v, 0 < n < 65536 -> n <> 1 -> av_decodable v -> av_typed ex_cx v -> av_ranges ex_cx v ->
+              attr_rd_ok ex_cx (n, v)) by (intros; unfold attr_rd_ok, two16; cbn [fst snd]; tauto).
+  split; [|split; [reflexivity|split; [reflexivity|]]].
+  - unfold ex_root. rewrite die_rd_ok_unfold. unfold two16. split; [lia|]. split.
+    + constructor; [|constructor; [|constructor]].
+      * apply A; [lia|discriminate|reflexivity| |exact I]. cbn [av_typed]. unfold UnitWr.blen. cbn [length]. lia.
+      * apply A; [lia|discriminate|exact I|exact I|exact I].
+    + cbn [dies_rd_ok]. rewrite !die_rd_ok_unfold. unfold two16. cbn [dies_rd_ok].
+      repeat split; try lia; try (constructor; [|constructor]; apply A; try lia; try discriminate; try exact I; cbn [av_typed]; lia).
+  - intros id. unfold ex_f. destruct (ref_value true false 0 0 (cs_entries ex_st) 4 id) as [b|] eqn:E; [|reflexivity].
+    unfold ref_value in E. destruct (unit_offset true 0 0 (cs_entries ex_st) id) as [[v|]| | |]; try discriminate.
+    destruct (write_udata false v 4) as [b'| | |] eqn:W; try discriminate. injection E as <-.
+    eapply write_udata_len; eassumption.
+Qed.
+
 Example unit_read_by_reader_ex :
   match calc true ex_enc 4 ex_root ex_st0 with
   | Ok st =>
-      let cx := mkWcx ex_enc false 0 0 (cs_entries st) (cs_codes st) None [] [] [] [] 4 in
-      let f := fun id => match ref_value true false 0 0 (cs_entries st) 4 id with Some b => b | None => zeros 4 end in
-      die_rd_ok cx ex_root /\ AttrProofs.addr_size_ok (renc cx) /\
-      FO.header_len (FO.mkUH 4 false 8 FO.UCompile 0) = 11 /\
+      cs_entries st = cs_entries ex_st /\ cs_codes st = cs_codes ex_st /\
       map (fun d => (FO.d_offset d, FO.d_depth d, FO.d_tag d, FO.d_children d, map snd (FO.d_attrs d)))
-          (FO.preorder (codes_of_tab (cs_abbrevs st)) 11 0 [T cx f ex_root]) =
+          (FO.preorder (codes_of_tab (cs_abbrevs st)) 11 0 [T ex_cx ex_f ex_root]) =
         [(11, 0%Z, 17, true, [FS.VUnitRef 33; FS.VString [x61]; FS.VUnitRef 25]);
          (22, 1%Z, 36, false, [FS.VUdata 300]);
          (25, 1%Z, 46, false, [FS.VUnitRef 22]);
          (30, 1%Z, 36, false, [FS.VUdata 7])]
   | _ => False
   end.
-Proof.
-  vm_compute. split; [|split; [reflexivity|split; reflexivity]].
-  repeat split; repeat constructor; try reflexivity; try discriminate.
-Qed.
+Proof. vm_compute. repeat split; reflexivity. Qed.
 
 (* ---------------------------------------------------------------- (3) abbreviation de-duplication *)
 
